@@ -400,6 +400,8 @@ func opClass(op string) string {
 		return "Fold"
 	case "Grow":
 		return "Resize"
+	case "CloneInfo":
+		return "UpdateCloneInfo"
 	case "Checkpoint":
 		return "SetCheckpoint"
 	case "Rebuild":
